@@ -288,3 +288,70 @@ class InterDefs:
                             if isinstance(r, ast.Return) and r.value is not None:
                                 work.append((tgt, r.value))
         return out
+
+
+def dependence(fnode):
+    """name -> set of names it depends on, by data (right-hand sides) AND control (tests of the enclosing ifs/loops of each assignment), transitively closed.
+    A sound over-approximation of "can the value of x vary with parameter p": if p is not in dependence(f)[x], x is the same whatever p is."""
+    direct = {}
+
+    def names(e):
+        return {n.id for n in ast.walk(e) if isinstance(n, ast.Name)}
+
+    def walk(stmts, ctrl):
+        for st in stmts:
+            if isinstance(st, ast.If):
+                c2 = ctrl | names(st.test)
+                walk(st.body, c2)
+                walk(st.orelse, c2)
+                # an early return/continue/break makes everything after it control dependent on the test as well; a guard that only RAISES does not: on every
+                # completed execution the test had the same outcome, so later values do not vary with it
+                if any(isinstance(x, (ast.Return, ast.Continue, ast.Break)) for b in (st.body, st.orelse) for s_ in b for x in ast.walk(s_)):
+                    ctrl = c2
+            elif isinstance(st, (ast.For, ast.AsyncFor)):
+                c2 = ctrl | names(st.iter)
+                for t in ast.walk(st.target):
+                    if isinstance(t, ast.Name):
+                        direct.setdefault(t.id, set()).update(c2)
+                walk(st.body, c2)
+                walk(st.orelse, c2)
+            elif isinstance(st, ast.While):
+                c2 = ctrl | names(st.test)
+                walk(st.body, c2)
+                walk(st.orelse, c2)
+            elif isinstance(st, (ast.With, ast.Try)):
+                for fld in ("body", "orelse", "finalbody"):
+                    walk(getattr(st, fld, []) or [], ctrl)
+                for h in getattr(st, "handlers", []) or []:
+                    walk(h.body, ctrl)
+            elif isinstance(st, (ast.Assign, ast.AnnAssign, ast.AugAssign)):
+                value = st.value
+                tgts = st.targets if isinstance(st, ast.Assign) else [st.target]
+                deps = (names(value) if value is not None else set()) | ctrl
+                for t in tgts:
+                    for x in ast.walk(t):
+                        if isinstance(x, ast.Name) and isinstance(x.ctx, ast.Store):
+                            direct.setdefault(x.id, set()).update(deps)
+                            if isinstance(st, ast.AugAssign):
+                                direct[x.id].add(x.id)
+                        elif isinstance(x, ast.Name) and isinstance(t, (ast.Subscript, ast.Attribute)) and x is _root(t):
+                            direct.setdefault(x.id, set()).update(deps | names(t))
+    walk(fnode.body, set())
+    closed = {k: set(v) for k, v in direct.items()}
+    changed = True
+    while changed:
+        changed = False
+        for k, v in closed.items():
+            add = set()
+            for n in list(v):
+                add |= closed.get(n, set())
+            if not add <= v:
+                v |= add
+                changed = True
+    return closed
+
+
+def _root(t):
+    while isinstance(t, (ast.Subscript, ast.Attribute)):
+        t = t.value
+    return t
